@@ -9,6 +9,32 @@ from .core import Q, Qs, F
 import discretisedfield as df
 
 NAMES = ["x", "y", "z", "a", "b", "c", "u", "v", "w", "t"]
+BC_WORDS = ("neumann", "dirichlet")
+
+
+def is_periodic(bc, d):
+    """is the axis named `d` a periodic direction under the boundary-condition string `bc`: `bc` lists periodic
+    directions as single characters unless it is one of the two words"""
+    return bc not in BC_WORDS and len(d) == 1 and d in bc
+
+
+def word_dims(rng, ndim, pool=None):
+    """(dims, bc): a `neumann`/`dirichlet` mesh some of whose axes are named by letters of that word (an open axis
+    called `n` is not a periodic one), or a mesh whose periodic directions, concatenated, spell a multi-character axis name"""
+    pool = pool or NAMES
+    if ndim >= 3 and rng.random() < 0.35:
+        singles = rng.sample([x for x in pool if len(x) == 1], ndim - 1)
+        k = rng.randint(2, len(singles))
+        bc = "".join(singles[:k])
+        dims = singles + [bc]
+        rng.shuffle(dims)
+        return dims, bc
+    word = rng.choice(BC_WORDS)
+    letters = sorted(set(word))
+    k = rng.randint(1, min(ndim, len(letters)))
+    dims = rng.sample(letters, k) + rng.sample([x for x in pool if x not in letters], ndim - k)
+    rng.shuffle(dims)
+    return dims, word
 
 
 def region_json(r):
